@@ -73,6 +73,10 @@ pub struct Case {
     /// frame while DATA keeps arriving from the same peer
     #[serde(default)]
     pub client_read_pause: Option<(u16, u16)>,
+    /// the h2c backend shuts down gracefully: GOAWAY(NO_ERROR) naming the last request's stream, sent before
+    /// that request is answered; every request it names must still get its complete response
+    #[serde(default)]
+    pub backend_goaway: bool,
 }
 
 /// Known finding (frame storm): sozu's session loop gives up after 10 000 iterations of one readiness
@@ -206,6 +210,8 @@ pub fn strategy(flow_focus: bool, max: usize, max_streams: usize) -> impl Strate
                 client_read_pause = Some((start, dur));
             }
             if let Some((count, len)) = many {
+                backend.max_concurrent = None;
+                client.max_concurrent = None;
                 streams = (0..count).map(|_| StreamSpec { req_len: len, resp_len: 3, req_frames: vec![16384], req_pad: None, resp_frames: vec![], resp_pad: None }).collect();
             }
             let make_generous = |p: &mut PeerSpec, biggest: usize| {
@@ -226,7 +232,7 @@ pub fn strategy(flow_focus: bool, max: usize, max_streams: usize) -> impl Strate
             if mode == 1 || mode == 3 {
                 make_generous(&mut client, biggest_resp);
             }
-            Case { seed, backend_h2, client, backend, streams, strict: false, slow_settings: if backend_h2 { slow_settings } else { None }, client_read_pause }
+            Case { seed, backend_h2, client, backend, streams, strict: false, slow_settings: if backend_h2 && many.is_none() { slow_settings } else { None }, client_read_pause, backend_goaway: backend_h2 && seed % 7 == 0 && many.is_none() }
         },
     )
 }
@@ -336,6 +342,7 @@ fn scenario_inner(lab: &mut H2Lab, case: &Case, tag: &str) -> CheckResult {
     h2s.settings = settings_of(&case.backend);
     h2s.auto_window_update = case.backend.auto;
     h2s.settings_delay_ms = case.slow_settings.map(|(d, _)| d as u64).unwrap_or(0);
+    h2s.goaway_before_req = if case.backend_goaway && case.backend_h2 { Some(case.streams.len() - 1) } else { None };
     h2s.grants = case.backend.grants.iter().map(|(d, t, inc)| (*d as u64, if *t == 0 { 0 } else { u32::MAX }, *inc)).collect();
     for (i, s) in case.streams.iter().enumerate() {
         let body = content(case.seed ^ (0xA000 + i as u64), s.resp_len);
@@ -380,7 +387,8 @@ fn scenario_inner(lab: &mut H2Lab, case: &Case, tag: &str) -> CheckResult {
     let mut grants: Vec<Grant> = case.client.grants.clone();
     grants.sort();
     let mut resettle = case.client.resettle;
-    let staggered = stagger_shape(case) && !case.strict;
+    // with a backend GOAWAY the named stream must be the last one to reach that connection
+    let staggered = (stagger_shape(case) && !case.strict) || case.backend_goaway;
     let mut next_to_open = 0usize;
     let mut last_open = Instant::now();
     let mut body_sent = vec![false; n];
@@ -550,7 +558,12 @@ fn scenario_inner(lab: &mut H2Lab, case: &Case, tag: &str) -> CheckResult {
                 return Err(Failure::new(format!("{tag}/request-count-at-backend"), format!("request {i} reached the h2c backend {} times", mine.len())));
             }
             if let Some(off) = first_mismatch(&mine[0].req.body, &want_req) {
-                return Err(Failure::new(format!("{tag}/request-body:h2c"), format!("stream {}: client sent {} body bytes, the h2c backend received {} (first difference at offset {off})", ids[i], want_req.len(), mine[0].req.body.len())));
+                let got = &mine[0].req.body;
+                // where do the bytes that arrived at `off` come from in what was sent? (a displacement tells a
+                // duplicated or a skipped span from corruption)
+                let probe = &got[off.min(got.len())..(off + 24).min(got.len())];
+                let origin = if probe.len() >= 8 { want_req.windows(probe.len()).position(|w| w == probe) } else { None };
+                return Err(Failure::new(format!("{tag}/request-body:h2c"), format!("stream {}: client sent {} body bytes, the h2c backend received {} (first difference at offset {off}; the 24 bytes received there are the ones sent at offset {origin:?})", ids[i], want_req.len(), got.len())));
             }
             if !mine[0].req.end_stream {
                 return Err(Failure::new(format!("{tag}/request-not-ended"), format!("request {i}: the h2c backend saw no END_STREAM")));
@@ -581,6 +594,7 @@ fn scenario_inner(lab: &mut H2Lab, case: &Case, tag: &str) -> CheckResult {
     rep.class_if(case.streams.len() >= 2, "concurrent_streams_2+");
     rep.class_if(case.client_read_pause.is_some(), "bulk_download_with_client_read_pause_and_upload");
     rep.class_if(case.streams.len() >= 60, "60+_single_frame_uploads_above_the_connection_window");
+    rep.class_if(case.backend_goaway && case.backend_h2, "backend_graceful_goaway_naming_an_open_stream");
     rep.class_if(case.slow_settings.is_some() && case.streams.len() >= 2, "stream_opened_while_backend_settings_awaited");
     rep.class_if(boundary, "size_within_9_of_a_boundary");
     rep.class_if(case.client.resettle.is_some() || case.backend.resettle.is_some(), "mid_connection_settings");
